@@ -2243,11 +2243,8 @@ func (dsc *dataStoreCommand) getHashTableRandField(keyName string, count *int, w
 	sk, objExists := dsc.getKeyObjectUnlocked(keyName)
 	if !objExists {
 		if count != nil {
-			if withValues {
-				output.data = newRespMap()
-			} else {
-				output.data = respArray{}
-			}
+			// an empty array in both protocol versions (WITHVALUES replies pairs, not a map)
+			output.data = respArray{}
 		}
 		return
 	}
